@@ -316,8 +316,8 @@ template<multi::dimensionality_type D> void do_vsave(VS<D> const& s) {
 		try {
 			for(int k = 0; k < 3; ++k) sv[k] = save_as(static_cast<Kind>(k), v);
 			std::string ctext;
-			if constexpr(D == 1) { multi::const_subarray<int, 1, int const*> cv(s.lay, s.base); ctext = save_as(TEXT, cv); }
-			else { multi::const_subarray<int, D, int*> const& cv = v; ctext = save_as(TEXT, cv); }
+			{ multi::const_subarray<int, D, int*> const& cv = v; ctext = save_as(TEXT, cv); }  // the type of a view of a const array; D = 1: the begin()/end() overload
+			if constexpr(D == 1) { multi::const_subarray<int, 1, int const*> cv(s.lay, s.base); if(save_as(TEXT, cv) != ctext) internal("const_subarray<T,1,T const*> saves differently"); }
 			// round trip of every archive kind into a compact array's view of equal extents
 			for(int k = 0; k < 3; ++k) {
 				multi::array<int, D> tmp(v.extensions(), -1);
